@@ -14,22 +14,23 @@ import (
 
 // Config controls one harness run.
 type Config struct {
-	Prog          *ssa.Program
-	Entry         *ssa.Function
-	InitPkgs      []*ssa.Package // packages whose init is interpreted (in order)
-	Policy        *Policy
-	LoopFuel      int      // max visits of one basic block per frame activation
-	MaxDepth      int      // max call depth
-	MaxInstr      int64    // max instructions per path
-	MaxPaths      int      // stop after this many paths (0 = unlimited); exceeding => inconclusive
-	QueryMs       int      // solver timeout per query
-	Preemptive    bool     // scheduling points at shared-memory accesses
-	SchedBound    int      // max scheduling decisions with >1 alternative per path
-	CrossCheck    []string // extra solvers for obligation queries
-	Trace         bool
-	FixedInputs   map[string]interface{} // concrete run: label -> value
-	Deadline      time.Time
-	MaxViolations int
+	Prog            *ssa.Program
+	Entry           *ssa.Function
+	InitPkgs        []*ssa.Package // packages whose init is interpreted (in order)
+	Policy          *Policy
+	LoopFuel        int      // max visits of one basic block per frame activation
+	MaxDepth        int      // max call depth
+	MaxInstr        int64    // max instructions per path
+	MaxPaths        int      // stop after this many paths (0 = unlimited); exceeding => inconclusive
+	QueryMs         int      // solver timeout per query
+	Preemptive      bool     // scheduling points at shared-memory accesses
+	PreemptSyncOnly bool     // pre-empt only at mutex and atomic operations, not at plain loads/stores
+	SchedBound      int      // max scheduling decisions with >1 alternative per path
+	CrossCheck      []string // extra solvers for obligation queries
+	Trace           bool
+	FixedInputs     map[string]interface{} // concrete run: label -> value
+	Deadline        time.Time
+	MaxViolations   int
 	// static partition of the path tree across workers: at the k-th fork (k<2) on a path this
 	// worker explores only alternatives j with j % PartCount[k] == PartIndex[k]
 	PartIndex [2]int
